@@ -7,6 +7,7 @@ mod c07d;
 mod c08r;
 mod c12;
 mod c14;
+mod c14e;
 mod c15a;
 mod c16;
 mod c16b;
